@@ -24,6 +24,14 @@ def mkStage (i : Nat) (cp pr eh : String) (req : Bool) (amp : Rat) : Stage Nat :
       | "reject" => some fun _ => .ok false
       | "raise" => some fun _ => .raise
       | "raise0" => some fun _ => .raise          -- an exception whose str() is empty: same behaviour
+      -- a callable object whose own truth value is false is a checkpoint like any other
+      | "fpass" => some fun _ => .ok true
+      | "freject" => some fun _ => .ok false
+      | "fraise" => some fun _ => .raise
+      -- answers of other types count by their truth value; an answer whose truth value cannot be taken is a gate error
+      | "truthy" => some fun _ => .ok true
+      | "falsy" => some fun _ => .ok false
+      | "boolraise" => some fun _ => .raise
       | "odd" => some fun x => .ok (x % 2 == 1)
       | "lt50" => some fun x => .ok (x < 50)
       | _ => none
